@@ -25,6 +25,7 @@ type SolverStats struct {
 	Restarts   int64
 	XCheck     int64
 	XDisagree  int64
+	XUnknown   int64
 }
 
 var gstats SolverStats
